@@ -5,7 +5,7 @@ import GlmVerif.Gen.C03map
 namespace Glm.Props.C03
 open Glm Glm.Spec.C03
 
-def chunkSize : Nat := 21
+def chunkSize : Nat := 28
 def chunk (k : Nat) : List (String × Mode) := (ops.drop (k * chunkSize)).take chunkSize
 
 /-- the table check of one slice over the model generated from /repo -/
